@@ -10,6 +10,7 @@ CONSTANTS
   Windows <- MC_Windows
   DWindows <- MC_DWindows
   RsdCfgs <- MC_RsdCfgs
+  NearCfgs <- MC_NearCfgs
   GridIds <- MC_GridIds
   Methods <- MC_Methods
   QueryTimes <- MC_Query
